@@ -44,6 +44,9 @@ type Ctx struct {
 	Work     string
 	Start    time.Time
 	Thorough bool
+	// AcceptRecorded: gradient values matching the specification's prediction under the recorded
+	// deviations are conformant for this property (it is not about gradient values)
+	AcceptRecorded bool
 
 	mu          sync.Mutex
 	Evaluations int
